@@ -35,8 +35,7 @@ def run(ctx):
     ctx.technique = 'property-based differential testing against an independent reference interpreter (Hypothesis-driven generation)'
     ctx.assumptions = ['vf/ref (tables + sem_dp.py + machine.py) is a faithful reading of DDI 0406C',
                        'MPU off and CPSR.E=0 here (protection and endianness are C14 / C13)']
-    e1prop.run_plan(ctx, 'vf.props.c01:PLAN', PLAN, shards=32, quick=700, thorough=12000)
-    ctx.pmap(e1prop.shard_repeat, [('vf.props.c01:PLAN', ctx.shard_seed(900 + i), ctx.n(120, 2500)) for i in range(16)])
+    e1prop.run_plan(ctx, 'vf.props.c01:PLAN', PLAN, shards=32, quick=700, thorough=12000)       # incl. the repeat shard (X ; flag setter ; [IT] ; X on one instance)
 
 
 def replay(case, bucket=None):
